@@ -203,13 +203,13 @@ Proof. induction l as [|x l IH]; intros H; [congruence|]. destruct l as [|y l]; 
    the body has been evaluated, and unfolding it on a symbolic value is exponential) *)
 Ltac ev :=
   cbv -[deref_deep for_each loopN xor_upto upto in_range fits len_eq le_ok Nat.add Nat.sub Nat.mul Nat.min ndiv Nat.modulo length seq xorb xor_into nth upd_nth
-        firstn skipn app splice N.lxor map map2 repeat zeros rd_in rd_out wr_out xor_in2out c_E c_D c_bs c_w last
+        firstn skipn app splice csplice N.lxor map map2 repeat zeros rd_in rd_out wr_out xor_in2out c_E c_D c_bs c_w last
         le_encode be_encode le_decode be_decode wrap pow2 to_usize N.add N.sub N.mul N.modulo N.leb N.ltb N.eqb concat rev].
 
 (* the same, also through [deref_deep] (once no loop is pending) *)
 Ltac evf :=
   cbv -[for_each loopN xor_upto upto in_range fits len_eq le_ok Nat.add Nat.sub Nat.mul Nat.min ndiv Nat.modulo length seq xorb xor_into nth upd_nth
-        firstn skipn app splice N.lxor map map2 repeat zeros rd_in rd_out wr_out xor_in2out c_E c_D c_bs c_w last
+        firstn skipn app splice csplice N.lxor map map2 repeat zeros rd_in rd_out wr_out xor_in2out c_E c_D c_bs c_w last
         le_encode be_encode le_decode be_decode wrap pow2 to_usize N.add N.sub N.mul N.modulo N.leb N.ltb N.eqb concat rev].
 
 Ltac solve_len :=
@@ -261,7 +261,7 @@ Ltac evf_checks := evf; repeat (progress (repeat check1); evf).
 
 Ltac ev_in H :=
   cbv -[deref_deep for_each loopN xor_upto upto in_range fits len_eq le_ok Nat.add Nat.sub Nat.mul Nat.min ndiv Nat.modulo length seq xorb xor_into nth upd_nth
-        firstn skipn app splice N.lxor map map2 repeat zeros rd_in rd_out wr_out xor_in2out c_E c_D c_bs c_w last
+        firstn skipn app splice csplice N.lxor map map2 repeat zeros rd_in rd_out wr_out xor_in2out c_E c_D c_bs c_w last
         le_encode be_encode le_decode be_decode wrap pow2 to_usize N.add N.sub N.mul N.modulo N.leb N.ltb N.eqb concat rev] in H.
 
 (* evaluate one subterm of the goal in place *)
@@ -325,3 +325,13 @@ Lemma seg_write_head (cur post s : list N) len : len = length cur -> splice 0 le
 Proof. intros ->. unfold splice. cbn [firstn app Nat.add]. now rewrite skipn_app_exact by reflexivity. Qed.
 Lemma seg_read_head {A} (cur post : list A) len : len = length cur -> firstn len (skipn 0 (cur ++ post)) = cur.
 Proof. intros ->. cbn [skipn]. now apply firstn_app_exact. Qed.
+
+Lemma firstn_add {A} a b (l : list A) : firstn (a + b) l = firstn a l ++ firstn b (skipn a l).
+Proof. revert l; induction a as [|a IH]; intros l; [reflexivity|]. destruct l as [|x l]; cbn [Nat.add firstn skipn app].
+  - now rewrite firstn_nil.
+  - now rewrite IH. Qed.
+
+Lemma skipn_add {A} a b (l : list A) : skipn (a + b) l = skipn b (skipn a l).
+Proof. revert l; induction a as [|a IH]; intros l; [reflexivity|]. destruct l as [|x l]; cbn [Nat.add skipn].
+  - now rewrite skipn_nil.
+  - apply IH. Qed.
